@@ -1313,6 +1313,7 @@ func main() {
 	rows = append(rows, g.pdfRows()...)
 	rows = append(rows, g.multiFillRows()...)
 	rows = append(rows, g.attachRows()...)
+	rows = append(rows, g.stagedFileRow())
 
 	sort.Slice(rows, func(i, j int) bool {
 		if rows[i].pkg != rows[j].pkg {
